@@ -205,7 +205,7 @@ def fill(res, st, bound, gran, extra_rule=""):
 
 def replay(witness):
     res = Result(PID)
-    h = Posters("line")
+    h = PeriodicPosters("line") if witness.get("harness") == "c05-periodic" else Posters("line")
     ex, v = explore.replay(h, witness)
     print("verdict:", ex.verdict, "obs:", ex.obs)
     for key, what in v:
